@@ -54,7 +54,7 @@ class FnContract:
 
     @property
     def verified(self):
-        return not self.external and self.file is not None
+        return not self.external and self.file is not None and not self.inline
 
 
 def _lab(c, kind, i):
